@@ -66,6 +66,24 @@ var scenarios = []scenario{
 		s.opRead(f, 4000, 2000)
 		s.opWrite(f, 6000, 10, 2, pat(0xcd, 10))
 		s.opRead(f, 4090, 3000)
+		// shrinking INSIDE the last block (the number of blocks stays the same), then growing:
+		// by SETATTR, and by a WRITE beyond the end that leaves a gap
+		g := s.mk("create", s.root(), "g")
+		s.opWrite(g, 0, 7096, 2, pat(0xe2, 7096))
+		sz4 := uint64(5096)
+		s.opSetattr(g, &sz4, timeHow{}, timeHow{})
+		sz5 := uint64(8000)
+		s.opSetattr(g, &sz5, timeHow{}, timeHow{})
+		s.opRead(g, 4096, 4096)
+		h := s.mk("create", s.root(), "h")
+		s.opWrite(h, 0, 2500, 2, pat(0x77, 2500))
+		sz6 := uint64(100)
+		s.opSetattr(h, &sz6, timeHow{}, timeHow{})
+		s.opWrite(h, 3000, 10, 2, pat(0x11, 10))
+		s.opRead(h, 0, 4096)
+		s.opRestart()
+		s.opRead(g, 4096, 4096)
+		s.opRead(h, 0, 4096)
 	}},
 	{"failed rename leaves the source in place", func(s *seqRun) {
 		s.mk("create", s.root(), "src")
